@@ -352,6 +352,8 @@ class C13(engine.Property):
         "are enumerated exhaustively (N<=32) or first/last 8 + 16 seeded positions",
     ]
     expected_probes = [
+        "user-attribute-with-two-leading-underscores",
+        "one-shot-iterator-as-attribute-value",
         "entry:neighbors",
         "entry:find_links",
         "entry:trav",
@@ -491,6 +493,11 @@ class C13(engine.Property):
             if out is None:
                 return None, None
             st.stats["op:" + op["op"]] += 1
+            for name, val in (op.get("attrs") or {}).items():
+                if name.startswith("__"):
+                    st.stats["probe:user-attribute-with-two-leading-underscores"] += 1
+                if isinstance(val, dict) and "$iter" in val:
+                    st.stats["probe:one-shot-iterator-as-attribute-value"] += 1
             st.refresh()
             st.mutations += 1
             return out, None
